@@ -19,6 +19,8 @@ CLAIMED = {
          'Coq proof of a DUART invariant over all operation histories + differential correspondence + monitors', 'DESIGN.md 7 C14'),
  'C15': ('proof', 'Theorems: frame = RAM[4*reg, +102400) for every register value (no panic), aligned accesses never straddle the window, dirty = landed-write-since-last-fetch by induction over all histories, invariant reachable; correspondence + independent window/dirty monitor.',
          'Coq proof by induction over write/fetch histories + differential correspondence + monitor', 'DESIGN.md 7 C15'),
+ 'C16': ('proof', 'Theorems (parametric in the four firmware arrays, lengths as declared in the source): reset from any state leaves ROM[0, 64K or 128K) = low ++ high image of the selected version, never fails in the loads, leaves RAM/NVRAM/display register untouched; Cpu::reset state from the control block at 0x80 with the I-bit and ISC adjustments; idempotent; host NVRAM snapshot = guest view byte for byte in every well-formed state; restored image visible to the guest; published images pinned by SHA-256; correspondence on reset/run/ROM-write/NVRAM histories + monitor.',
+         'Coq proof over the reset / load / NVRAM model + SHA-256 pin of the images + differential correspondence', 'DESIGN.md 7 C16'),
  'C17': ('proof', 'Theorems (virtual clock): source baud tables = model tables, every valid clock-select code x both sets gives 8..12 bit times of the data-sheet rate, receive transfers only after the deadline and re-armed one character time later, due byte moves on the next service, vertical blank only after its deadline and re-armed 1/60 s later, withdrawn on acknowledge; correspondence on pacing runs; partial: std::time::Instant of the unguarded build is not modelled.',
          'Coq proof over the timed DUART model (virtual clock) + differential correspondence + pacing monitor', 'DESIGN.md 7 C17'),
  'C20': ('proof', 'Theorems: mouse registers return the last reported coordinates and nothing else changes them, every button event raises the request, buttons 0-2 show level and change bit, other buttons only raise the request, the request persists across every operation but the IPCR read; correspondence + monitor.',
